@@ -71,7 +71,7 @@ def next (step : S → Cmd → S × Reply) (st : State Node Id Conn S Cmd Reply)
     else st
 
 /-- **The interface to Raft**, as a guard on each event.  Every conjunct is discharged in `Props/C07Multi.lean` for the model run
-    on top of an L0 run (`C07Multi.raftFacts_*`), from the L0 theorem named here:
+    on top of an L0 run (`C07Multi.cinv_submit`, `C07Multi.cinv_applyEntry`, assembled in `C07Multi.cinv_step`), from the L0 theorem named here:
 
     * `submit i c cmd id` — **cluster-wide unique proposal ids**: no connection of ANY node has used `id`, and no node has an entry
       with that id in its applied log.  (Environment hypothesis — `uuid.NewString`; the second half follows from the first and
